@@ -17,14 +17,26 @@
   (passed BY NAME: the parameter of a float literal is named after its value, so a changed literal breaks the tie).
   The `*_shapes` theorems discharge the companion obligations of the translator: every pair of axis lengths numpy
   requires to agree does agree and no slice stop exceeds its axis (so no slice is silently clipped or broadcast).
+  The run the cloud theorems are about — `TransmissionModel.path_integral` (loop over the layers, loop over the contribution
+  list with its `tau[layer].min() > 10` break), the `contribute` methods it dispatches to, the chord lengths and
+  `compute_absorption` (`np.exp(-tau)`) — is re-translated here from C01's specs and tied, for EVERY carrier, to the model of
+  `TaurexModel/Transmission.lean` (`src_path_integral*`, the statements and proofs of `Props/C01Src.lean` about
+  `Gen.SrcC19`).  Being generic, these ties also hold at the extended carrier `XR` of `Proofs/C19Ext.lean`, where `np.inf`
+  is a value: `src_cloudy_run*` state that the regenerated run with the regenerated cloud opacity first returns the model's
+  `cloudyTrans` / `cloudyDepth`.
 -/
 import TaurexModel.Gen.SrcC19
 import TaurexModel.Haze
+import TaurexModel.Geometry
 import Proofs.RealInst
+import Proofs.C01SrcLemmas
+import Proofs.C19Ext
 set_option linter.unusedSectionVars false
 
 namespace Taurex.C19Src
 open Taurex.Transmission Taurex.Haze
+open Taurex.C01Src (fold_kernel foldl_append_singleton cutLoop foldl_break fold_layers tauCutFrom_congr
+  tauCutFrom_congr_path depth_congr)
 
 section
 variable {α : Type} [Add α] [Sub α] [Mul α] [Div α] [Neg α] [LT α] [LE α]
@@ -149,11 +161,387 @@ theorem src_flat_prepare_each_shapes (n nW : Nat) (hn : 1 ≤ n) (plev : Nat →
     show _ ≤ n
     omega
 
+/-! ## the transmission run (C01's specs, re-translated into `Gen.SrcC19`) -/
+
+/-! ### the optical-depth kernels -/
+
+/-- `contribute_tau` (both loops): row `layer`, columns below `ngrid`, receive
+    `Σ_{k = startK}^{endK-1} sigma[k+layer, wn] * path[k] * density[k+density_offset]` added in that order; every other
+    entry of `tau` is untouched -/
+theorem src_contribute_tau (s e off : Nat) (sigma : Nat → Nat → α) (dens path : Nat → α) (ngrid l : Nat)
+    (tau : Nat → Nat → α) :
+    Gen.SrcC19.contribute_tau s e off sigma dens path ngrid l tau
+      = fun i j => if i = l ∧ j < ngrid then
+          (List.range' s (e - s)).foldl (fun acc k => acc + sigma (k + l) j * path k * dens (k + off)) (tau l j)
+        else tau i j :=
+  fold_kernel l ngrid s (e - s) (fun k wn => sigma (k + l) wn * path k * dens (k + off)) tau
+
+/-- `contribute_cia`: the same with the density squared -/
+theorem src_contribute_cia (s e off : Nat) (sigma : Nat → Nat → α) (dens path : Nat → α) (ngrid l : Nat)
+    (tau : Nat → Nat → α) :
+    Gen.SrcC19.contribute_cia s e off sigma dens path ngrid l tau
+      = fun i j => if i = l ∧ j < ngrid then
+          (List.range' s (e - s)).foldl
+            (fun acc k => acc + sigma (k + l) j * path k * dens (k + off) * dens (k + off)) (tau l j)
+        else tau i j :=
+  fold_kernel l ngrid s (e - s) (fun k wn => sigma (k + l) wn * path k * dens (k + off) * dens (k + off)) tau
+
+/-- `Contribution.contribute` hands `self.sigma_xsec`, `self._ngrid` to `contribute_tau` -/
+theorem src_contribution_contribute (s e off l : Nat) (dens path : Nat → α) (tau sigma : Nat → Nat → α) (ngrid : Nat) :
+    Gen.SrcC19.contribution_contribute s e off l dens tau path ngrid sigma
+      = Gen.SrcC19.contribute_tau s e off sigma dens path ngrid l tau := rfl
+
+/-- `CIAContribution.contribute` with at least one pair (`self._total_cia > 0`) runs `contribute_cia`; with no pair it
+    leaves `tau` alone (its `sigma_xsec` is then identically zero) -/
+theorem src_cia_contribute (s e off l : Nat) (dens path : Nat → α) (tau sigma : Nat → Nat → α) (ngrid total : Nat) :
+    Gen.SrcC19.cia_contribute s e off l dens tau path ngrid sigma total
+      = if 0 < total then Gen.SrcC19.contribute_cia s e off sigma dens path ngrid l tau else tau := by
+  unfold Gen.SrcC19.cia_contribute
+  by_cases h : 0 < total <;> simp [h]
+
+/-- the kernel as `path_integral` calls it, for a prepared contribution of kind `lin`: the new row is `addContrib` -/
+theorem src_contribute_tau_call (n l ngrid : Nat) (sigma : Nat → Nat → α) (dens path : Nat → α) (tau : Nat → Nat → α) :
+    Gen.SrcC19.contribute_tau 0 (n - l) l sigma dens path ngrid l tau
+      = fun i j => if i = l ∧ j < ngrid then addContrib ⟨.lin, sigma⟩ n path dens l (tau l) j else tau i j := by
+  rw [src_contribute_tau]
+  simp only [addContrib, accFrom, nTerms, term, Nat.sub_zero, List.range_eq_range']
+
+theorem src_contribute_cia_call (n l ngrid : Nat) (sigma : Nat → Nat → α) (dens path : Nat → α) (tau : Nat → Nat → α) :
+    Gen.SrcC19.contribute_cia 0 (n - l) l sigma dens path ngrid l tau
+      = fun i j => if i = l ∧ j < ngrid then addContrib ⟨.sq, sigma⟩ n path dens l (tau l) j else tau i j := by
+  rw [src_contribute_cia]
+  simp only [addContrib, accFrom, nTerms, term, Nat.sub_zero, List.range_eq_range']
+
+/-! ### transit depth and chord lengths -/
+
+/-- `compute_absorption(tau, dz)`: the pair (`depth` per wavenumber, `exp(-tau)`) -/
+theorem src_compute_absorption (n nW : Nat) (rp rs : α) (z dz : Nat → α) (tau : Nat → Nat → α) :
+    Gen.SrcC19.compute_absorption tau dz n nW rp rs z
+      = (fun wn => depth rp rs n z dz (fun l => trans (tau l wn)), fun l wn => trans (tau l wn)) := rfl
+
+/-- `compute_path_length_old(dz)`: the list, layer by layer, of the chord segments `chordOld` (as whole functions of the
+    segment index: also the slice arithmetic `k[1:] = …[layer+1:]`, `k[1:] -= …[layer:nLayers-1]` is matched) -/
+theorem src_compute_path_length_old (n : Nat) (rp : α) (z dz : Nat → α) :
+    Gen.SrcC19.compute_path_length_old dz n rp z = (List.range n).map (fun l => chordOld rp z dz l) := by
+  unfold Gen.SrcC19.compute_path_length_old
+  simp only [Nat.sub_zero]
+  rw [foldl_append_singleton]
+  simp only [List.nil_append]
+  congr 1
+  funext l k
+  unfold chordOld oldHalf oldMid oldP Transmission.sq
+  cases k with
+  | zero => simp
+  | succ k =>
+    have e3 : l + 1 + k = l + (k + 1) := by omega
+    simp [e3]
+
+/-- the slices combined element-wise in `compute_path_length_old` have equal lengths (what numpy requires; hence no
+    length-1 slice is silently broadcast) -/
+theorem src_compute_path_length_old_shapes (n : Nat) (rp : α) (z dz : Nat → α) :
+    Gen.SrcC19.compute_path_length_old_shapes dz n rp z := by
+  unfold Gen.SrcC19.compute_path_length_old_shapes
+  refine ⟨?_, ?_, ?_⟩ <;> intros <;> omega
+
+/-! ### new path method: what is handed to the 3-D geometry -/
+
+/-- a `(3, n)` numpy array whose columns are the vectors `f j` -/
+def rows (f : Nat → Geometry.V3 α) : Nat → Nat → α :=
+  fun r j => if r = 1 then (f j).y else if r = 0 then (f j).x else (f j).z
+
+/-- `parallel_vector(R, alt, max_alt)` (for an array `alt`): column `j` of `viewer` / `tangent` is the model's
+    `Geometry.parallelVector R alt[j] max_alt` — in particular the ray origin `-(R + 2·max_alt)` -/
+theorem src_parallel_vector (R maxAlt : α) (alt : Nat → α) (nA : Nat) :
+    Gen.SrcC19.parallel_vector R alt maxAlt nA
+      = (rows (fun j => (Geometry.parallelVector R (alt j) maxAlt).1),
+         rows (fun j => (Geometry.parallelVector R (alt j) maxAlt).2)) := by
+  unfold Gen.SrcC19.parallel_vector rows Geometry.parallelVector
+  refine Prod.ext ?_ ?_ <;> funext r j <;> by_cases h1 : r = 1 <;> by_cases h0 : r = 0 <;> simp [h1, h0]
+
+/-- `TransmissionModel.compute_path_length`: the rows come from `planet.compute_path_length` (→
+    `compute_path_length_3d`, a parameter) called with the altitude boundaries and, for tangent layer `l`, the line of
+    sight `parallelVector rp (z[l] + dz[l]/2) (max of the boundaries)` — the inputs of the model's
+    `Geometry.layerDists` -/
+theorem src_compute_path_length (n : Nat) (rp : α) (zb z dz : Nat → α)
+    (planetPaths : (Nat → α) → (Nat → Nat → α) → (Nat → Nat → α) → List (Nat → α)) :
+    Gen.SrcC19.compute_path_length dz n planetPaths rp zb z
+      = planetPaths zb
+          (rows (fun l => (Geometry.parallelVector rp (z l + dz l / 2) (Geometry.arrMax n zb)).1))
+          (rows (fun l => (Geometry.parallelVector rp (z l + dz l / 2) (Geometry.arrMax n zb)).2)) := by
+  unfold Gen.SrcC19.compute_path_length
+  simp only [src_parallel_vector]
+  rfl
+
+/-! ### the whole `path_integral` -/
+
+/-- what `contrib.contribute(self, s, e, off, layer, density, tau, path_length=dl)` executes (Python's dynamic
+    dispatch) for a prepared contribution of each model kind: `Contribution.contribute` (absorption, Rayleigh, hazes:
+    kernel `contribute_tau`), `CIAContribution.contribute`, `SimpleCloudsContribution.contribute`; `ngrid` is the
+    contributions' `self._ngrid` (= `wngrid.shape[0]`, set by `prepare`), `total` is `CIAContribution._total_cia` -/
+def dispatch (ngrid total nL : Nat) (c : Contrib α) (s e off layer : Nat) (dens : Nat → α) (tau : Nat → Nat → α)
+    (path : Nat → α) : Nat → Nat → α :=
+  match c.kind with
+  | .lin => Gen.SrcC19.contribution_contribute s e off layer dens tau path ngrid c.sigma
+  | .sq => Gen.SrcC19.cia_contribute s e off layer dens tau path ngrid c.sigma total
+  | .layerOnly => Gen.SrcC19.clouds_contribute layer tau nL ngrid c.sigma
+
+/-- one dispatched call, as `path_integral` makes it: rows other than `l` are untouched, row `l` below `nwn` is
+    `addContrib` -/
+theorem dispatch_row (n nwn total : Nat) (ht : 0 < total) (c : Contrib α) (l : Nat) (dens path : Nat → α)
+    (tau : Nat → Nat → α) :
+    (∀ i j, i ≠ l → dispatch nwn total n c 0 (n - l) l l dens tau path i j = tau i j) ∧
+    (∀ j < nwn, dispatch nwn total n c 0 (n - l) l l dens tau path l j = addContrib c n path dens l (tau l) j) := by
+  obtain ⟨kind, sigma⟩ := c
+  cases kind
+  · simp only [dispatch, src_contribution_contribute, src_contribute_tau_call]
+    exact ⟨fun i j hi => by simp [hi], fun j hj => by simp [hj]⟩
+  · simp only [dispatch, src_cia_contribute, if_pos ht, src_contribute_cia_call]
+    exact ⟨fun i j hi => by simp [hi], fun j hj => by simp [hj]⟩
+  · simp only [dispatch, src_clouds_contribute n l n nwn sigma dens path]
+    exact ⟨fun i j hi => by simp [hi], fun j _ => by simp⟩
+
+/-- the loop over the contribution list (with its break) on row `l` of the table -/
+theorem layer_loop (n nwn total : Nat) (ht : 0 < total) (l : Nat) (dens path : Nat → α) (cs : List (Contrib α))
+    (tau : Nat → Nat → α) :
+    (∀ i j, i ≠ l →
+      cutLoop (fun t : Nat → Nat → α => saturated nwn (t l))
+        (fun c t => dispatch nwn total n c 0 (n - l) l l dens t path) cs tau i j = tau i j) ∧
+    (∀ j < nwn,
+      cutLoop (fun t : Nat → Nat → α => saturated nwn (t l))
+        (fun c t => dispatch nwn total n c 0 (n - l) l l dens t path) cs tau l j
+        = tauCutFrom n nwn path dens l cs (tau l) j) := by
+  induction cs generalizing tau with
+  | nil => exact ⟨fun _ _ _ => rfl, fun _ _ => rfl⟩
+  | cons c cs ih =>
+    simp only [cutLoop, tauCutFrom]
+    cases hs : saturated nwn (tau l)
+    · simp only [Bool.false_eq_true, if_false]
+      have hd := dispatch_row n nwn total ht c l dens path tau
+      have h := ih (dispatch nwn total n c 0 (n - l) l l dens tau path)
+      refine ⟨fun i j hi => ?_, fun j hj => ?_⟩
+      · rw [h.1 i j hi, hd.1 i j hi]
+      · rw [h.2 j hj]
+        exact tauCutFrom_congr n nwn path dens l cs _ _ hd.2 j hj
+    · simp only [if_true]
+      exact ⟨fun _ _ _ => trivial, fun _ _ => trivial⟩
+
+/-- **`path_integral`, optical depth part**: for whatever list of chord rows `paths` the code computed, entry
+    `(l, wn)` of the returned `exp(-tau)` is the transmittance of the model's loop with the early exit, `tauCut`, and the
+    returned absorption is `depth` of these.  (`0 < total`: a CIA contribution, if present, has at least one pair.) -/
+theorem src_path_integral (n nwn total : Nat) (ht : 0 < total) (rp rs : α) (z dz dens : Nat → α)
+    (zb : Nat → α) (cs : List (Contrib α)) (newMethod : Bool)
+    (planetPaths : (Nat → α) → (Nat → Nat → α) → (Nat → Nat → α) → List (Nat → α)) :
+    let paths := if newMethod then Gen.SrcC19.compute_path_length dz n planetPaths rp zb z
+      else Gen.SrcC19.compute_path_length_old dz n rp z
+    let r := Gen.SrcC19.path_integral nwn cs (dispatch nwn total n) dz dens n newMethod planetPaths rp rs zb z
+    (∀ l < n, ∀ wn < nwn,
+        r.2 l wn = trans (tauCut n nwn (paths.getD l (fun _ => 0)) dens l cs wn)) ∧
+    (∀ wn < nwn,
+        r.1 wn = depth rp rs n z dz (fun l => trans (tauCut n nwn (paths.getD l (fun _ => 0)) dens l cs wn))) := by
+  intro paths r
+  -- the table after the loop over the layers
+  have key : ∀ l wn, l < n → wn < nwn →
+      (List.range' 0 n).foldl (fun (T : Nat → Nat → α) (l : Nat) =>
+          cutLoop (fun t : Nat → Nat → α => saturated nwn (t l))
+            (fun c t => dispatch nwn total n c 0 (n - l) l l dens t (paths.getD l (fun _ => 0))) cs T)
+        (fun _ _ => (0 : α)) l wn
+      = tauCut n nwn (paths.getD l (fun _ => 0)) dens l cs wn := by
+    intro l wn hl hwn
+    refine ((fold_layers n nwn _ (fun _ _ => (0 : α))
+      (fun l wn => tauCut n nwn (paths.getD l (fun _ => 0)) dens l cs wn) ?_ ?_) l wn).1 hl hwn
+    · intro l T i j hi
+      exact (layer_loop n nwn total ht l dens _ cs T).1 i j hi
+    · intro l T hT j hj
+      rw [(layer_loop n nwn total ht l dens _ cs T).2 j hj]
+      unfold tauCut
+      exact tauCutFrom_congr n nwn _ dens l cs _ _ (fun w _ => hT w) j hj
+  have hr : r = Gen.SrcC19.compute_absorption
+      ((List.range' 0 n).foldl (fun (T : Nat → Nat → α) (l : Nat) =>
+          cutLoop (fun t : Nat → Nat → α => saturated nwn (t l))
+            (fun c t => dispatch nwn total n c 0 (n - l) l l dens t (paths.getD l (fun _ => 0))) cs T)
+        (fun _ _ => (0 : α))) dz n nwn rp rs z := by
+    show Gen.SrcC19.path_integral nwn cs (dispatch nwn total n) dz dens n newMethod planetPaths rp rs zb z = _
+    unfold Gen.SrcC19.path_integral
+    simp only [← foldl_break]
+    cases newMethod <;> rfl
+  rw [hr, src_compute_absorption]
+  refine ⟨fun l hl wn hwn => ?_, fun wn hwn => ?_⟩
+  · simp only [key l wn hl hwn]
+  · simp only
+    exact depth_congr rp rs n z dz _ _ (fun l hl => by rw [key l wn hl hwn])
+
+theorem chord_old (rp : α) (zb z dz : Nat → α) (l : Nat) : chord false rp zb z dz l = chordOld rp z dz l := by
+  funext k; simp [chord]
+
+theorem chord_new (rp : α) (zb z dz : Nat → α) (l : Nat) : chord true rp zb z dz l = chordNew rp zb z dz l := by
+  funext k; simp [chord]
+
+/-- **`path_integral` with the old path method** (`new_path_method=False`) is the model `modelTrans` / `modelDepth` with
+    the early exit -/
+theorem src_path_integral_old (n nwn total : Nat) (ht : 0 < total) (rp rs : α) (zb z dz dens : Nat → α)
+    (cs : List (Contrib α)) (planetPaths : (Nat → α) → (Nat → Nat → α) → (Nat → Nat → α) → List (Nat → α)) :
+    let r := Gen.SrcC19.path_integral nwn cs (dispatch nwn total n) dz dens n false planetPaths rp rs zb z
+    (∀ l < n, ∀ wn < nwn, r.2 l wn = modelTrans true false rp n nwn zb z dz dens cs l wn) ∧
+    (∀ wn < nwn, r.1 wn = modelDepth true false rp rs n nwn zb z dz dens cs wn) := by
+  intro r
+  have h := src_path_integral n nwn total ht rp rs z dz dens zb cs false planetPaths
+  simp only [Bool.false_eq_true, if_false, src_compute_path_length_old] at h
+  have hp : ∀ l < n, ((List.range n).map (fun l => chordOld rp z dz l)).getD l (fun _ => 0) = chordOld rp z dz l := by
+    intro l hl
+    simp [List.getD, hl]
+  refine ⟨fun l hl wn hwn => ?_, fun wn hwn => ?_⟩
+  · rw [h.1 l hl wn hwn, hp l hl]
+    simp only [modelTrans, chord_old, if_true]
+  · rw [h.2 wn hwn]
+    simp only [modelDepth, modelTrans, chord_old, if_true]
+    exact depth_congr rp rs n z dz _ _ (fun l hl => by rw [hp l hl])
+
+/-- **`path_integral` with the new path method**: if the rows `planet.compute_path_length` returns for the lines of sight
+    of `src_compute_path_length` (the 3-D geometry: modelled by `Geometry.pathRow3d` and proved equal to the closed form
+    in `C01.path3d_eq_chordNew`) are the chords `chordNew` on their `n - l` segments, the result is the model with
+    `newMethod = true` -/
+theorem src_path_integral_new (n nwn total : Nat) (ht : 0 < total) (rp rs : α) (zb z dz dens : Nat → α)
+    (cs : List (Contrib α)) (planetPaths : (Nat → α) → (Nat → Nat → α) → (Nat → Nat → α) → List (Nat → α))
+    (hnew : ∀ l < n, ∀ k < n - l,
+      (planetPaths zb
+          (rows (fun l => (Geometry.parallelVector rp (z l + dz l / 2) (Geometry.arrMax n zb)).1))
+          (rows (fun l => (Geometry.parallelVector rp (z l + dz l / 2) (Geometry.arrMax n zb)).2))).getD l (fun _ => 0) k
+        = chordNew rp zb z dz l k) :
+    let r := Gen.SrcC19.path_integral nwn cs (dispatch nwn total n) dz dens n true planetPaths rp rs zb z
+    (∀ l < n, ∀ wn < nwn, r.2 l wn = modelTrans true true rp n nwn zb z dz dens cs l wn) ∧
+    (∀ wn < nwn, r.1 wn = modelDepth true true rp rs n nwn zb z dz dens cs wn) := by
+  intro r
+  have h := src_path_integral n nwn total ht rp rs z dz dens zb cs true planetPaths
+  simp only [if_true, src_compute_path_length] at h
+  have hp : ∀ l < n, tauCut n nwn ((planetPaths zb
+          (rows (fun l => (Geometry.parallelVector rp (z l + dz l / 2) (Geometry.arrMax n zb)).1))
+          (rows (fun l => (Geometry.parallelVector rp (z l + dz l / 2) (Geometry.arrMax n zb)).2))).getD l
+            (fun _ => 0)) dens l cs
+      = tauCut n nwn (chordNew rp zb z dz l) dens l cs := by
+    intro l hl
+    unfold tauCut
+    exact tauCutFrom_congr_path n nwn _ _ dens l cs _ (hnew l hl)
+  refine ⟨fun l hl wn hwn => ?_, fun wn hwn => ?_⟩
+  · rw [h.1 l hl wn hwn, hp l hl]
+    simp only [modelTrans, chord_new, if_true]
+  · rw [h.2 wn hwn]
+    simp only [modelDepth, modelTrans, chord_new, if_true]
+    exact depth_congr rp rs n z dz _ _ (fun l hl => by rw [hp l hl])
+
 end
 
 /-- the grey-haze tie at the carrier of the C19 theorems -/
 theorem src_flat_prepare_each_real (n nW : Nat) (plev : Nat → ℝ) (bottomRaw topRaw mix : ℝ) (l wn : Nat) (hl : l < n) :
     Gen.SrcC19.flat_prepare_each nW bottomRaw mix n plev topRaw l wn = flatSigma n plev bottomRaw topRaw mix l :=
   src_flat_prepare_each (fun _ _ => not_lt.symm) n nW plev bottomRaw topRaw mix l wn hl
+
+/-! ## the cloudy run at the extended carrier `XR` (Proofs/C19Ext.lean), where `np.inf` is a value
+
+  All inputs are finite (`lift`, `fin`) except the cloud's opacity: the regenerated `prepare_each` is run with `np.inf := pinf`.
+  The contribution list is `[cloud deck] ++ rest` (`build()` sorts by `order`, the cloud's is 3, every other built-in
+  contribution's 5).  `total` = `CIAContribution._total_cia` (`0 < total`: a CIA contribution, if present, has a pair). -/
+
+open Taurex.C19Ext Taurex.C19Ext.XR
+
+/-- the regenerated `SimpleCloudsContribution.prepare_each` at `XR`, run with `np.inf` as the value `pinf`: `pinf` at and
+    below the cloud top, `0` above — the opacity table of the model's cloud deck -/
+theorem src_clouds_prepare_each_XR (nL nW : Nat) (P : Nat → ℝ) (p0 : ℝ) :
+    Gen.SrcC19.clouds_prepare_each (α := XR) nW (lift P) pinf nL (fin p0) = (cloudC P p0).sigma := by
+  funext l wn
+  unfold Gen.SrcC19.clouds_prepare_each cloudC cloudSigma
+  by_cases h : p0 ≤ P l <;> simp [h, ofExt]
+
+/-- the prepared contribution list of a model with a cloud deck, at `XR`: the cloud's `sigma_xsec` is what the
+    regenerated `prepare_each` computes -/
+noncomputable def cloudyList (nL nW : Nat) (P : Nat → ℝ) (p0 : ℝ) (rest : List (Contrib ℝ)) : List (Contrib XR) :=
+  ⟨.layerOnly, Gen.SrcC19.clouds_prepare_each (α := XR) nW (lift P) pinf nL (fin p0)⟩ :: rest.map liftC
+
+theorem cloudyList_eq (nL nW : Nat) (P : Nat → ℝ) (p0 : ℝ) (rest : List (Contrib ℝ)) :
+    cloudyList nL nW P p0 rest = cloudC P p0 :: rest.map liftC := by
+  unfold cloudyList
+  rw [src_clouds_prepare_each_XR]
+  rfl
+
+/-- the regenerated `path_integral` (absorption, `exp(-tau)`) of that model, at `XR` -/
+noncomputable def cloudyRun (newMethod : Bool) (rp rs : ℝ) (n nwn total : Nat) (zb z dz dens P : Nat → ℝ) (p0 : ℝ)
+    (rest : List (Contrib ℝ)) (planetPaths : (Nat → XR) → (Nat → Nat → XR) → (Nat → Nat → XR) → List (Nat → XR)) :
+    (Nat → XR) × (Nat → Nat → XR) :=
+  Gen.SrcC19.path_integral (α := XR) nwn (cloudyList n nwn P p0 rest) (dispatch nwn total n) (lift dz) (lift dens) n
+    newMethod planetPaths (fin rp) (fin rs) (lift zb) (lift z)
+
+/-- **the cloudy run, old path method**: the regenerated `path_integral` at `XR` — with the regenerated cloud opacity, the
+    regenerated `contribute` methods, chord lengths and `compute_absorption` — returns the model's `cloudyTrans` (entry by
+    entry of `exp(-tau)`) and `cloudyDepth`, as finite values -/
+theorem src_cloudy_run_old (rp rs : ℝ) (n nwn total : Nat) (ht : 0 < total) (zb z dz dens P : Nat → ℝ) (p0 : ℝ)
+    (rest : List (Contrib ℝ)) (planetPaths : (Nat → XR) → (Nat → Nat → XR) → (Nat → Nat → XR) → List (Nat → XR)) :
+    (∀ l < n, ∀ wn < nwn, (cloudyRun false rp rs n nwn total zb z dz dens P p0 rest planetPaths).2 l wn
+        = fin (cloudyTrans false rp n nwn zb z dz dens P p0 rest l wn)) ∧
+    (∀ wn < nwn, (cloudyRun false rp rs n nwn total zb z dz dens P p0 rest planetPaths).1 wn
+        = fin (cloudyDepth false rp rs n nwn zb z dz dens P p0 rest wn)) := by
+  have h := src_path_integral_old (α := XR) n nwn total ht (fin rp) (fin rs) (lift zb) (lift z) (lift dz) (lift dens)
+    (cloudyList n nwn P p0 rest) planetPaths
+  simp only [cloudyList_eq] at h
+  unfold cloudyRun
+  simp only [cloudyList_eq]
+  refine ⟨fun l hl wn hwn => ?_, fun wn hwn => ?_⟩
+  · rw [h.1 l hl wn hwn]
+    exact modelTrans_cloudy false rp n nwn zb z dz dens P p0 rest l wn (Nat.lt_of_le_of_lt (Nat.zero_le _) hwn)
+  · rw [h.2 wn hwn]
+    exact modelDepth_cloudy false rp rs n nwn zb z dz dens P p0 rest wn (Nat.lt_of_le_of_lt (Nat.zero_le _) hwn)
+
+/-- **the cloudy run, new path method**, under the hypothesis of `src_path_integral_new` (the 3-D geometry returns the
+    chords `chordNew`) -/
+theorem src_cloudy_run_new (rp rs : ℝ) (n nwn total : Nat) (ht : 0 < total) (zb z dz dens P : Nat → ℝ) (p0 : ℝ)
+    (rest : List (Contrib ℝ)) (planetPaths : (Nat → XR) → (Nat → Nat → XR) → (Nat → Nat → XR) → List (Nat → XR))
+    (hnew : ∀ l < n, ∀ k < n - l,
+      (planetPaths (lift zb)
+          (rows (fun l => (Geometry.parallelVector (fin rp) (lift z l + lift dz l / 2) (Geometry.arrMax n (lift zb))).1))
+          (rows (fun l => (Geometry.parallelVector (fin rp) (lift z l + lift dz l / 2) (Geometry.arrMax n (lift zb))).2))).getD
+            l (fun _ => 0) k
+        = chordNew (fin rp) (lift zb) (lift z) (lift dz) l k) :
+    (∀ l < n, ∀ wn < nwn, (cloudyRun true rp rs n nwn total zb z dz dens P p0 rest planetPaths).2 l wn
+        = fin (cloudyTrans true rp n nwn zb z dz dens P p0 rest l wn)) ∧
+    (∀ wn < nwn, (cloudyRun true rp rs n nwn total zb z dz dens P p0 rest planetPaths).1 wn
+        = fin (cloudyDepth true rp rs n nwn zb z dz dens P p0 rest wn)) := by
+  have h := src_path_integral_new (α := XR) n nwn total ht (fin rp) (fin rs) (lift zb) (lift z) (lift dz) (lift dens)
+    (cloudyList n nwn P p0 rest) planetPaths hnew
+  simp only [cloudyList_eq] at h
+  unfold cloudyRun
+  simp only [cloudyList_eq]
+  refine ⟨fun l hl wn hwn => ?_, fun wn hwn => ?_⟩
+  · rw [h.1 l hl wn hwn]
+    exact modelTrans_cloudy true rp n nwn zb z dz dens P p0 rest l wn (Nat.lt_of_le_of_lt (Nat.zero_le _) hwn)
+  · rw [h.2 wn hwn]
+    exact modelDepth_cloudy true rp rs n nwn zb z dz dens P p0 rest wn (Nat.lt_of_le_of_lt (Nat.zero_le _) hwn)
+
+/-- the same model WITHOUT the cloud deck (old path method), at `XR` on finite inputs: `fin` of the model at `ℝ` -/
+theorem src_clear_run_old (rp rs : ℝ) (n nwn total : Nat) (ht : 0 < total) (zb z dz dens : Nat → ℝ)
+    (rest : List (Contrib ℝ)) (planetPaths : (Nat → XR) → (Nat → Nat → XR) → (Nat → Nat → XR) → List (Nat → XR)) :
+    ∀ l < n, ∀ wn < nwn,
+      (Gen.SrcC19.path_integral (α := XR) nwn (rest.map liftC) (dispatch nwn total n) (lift dz) (lift dens) n false
+        planetPaths (fin rp) (fin rs) (lift zb) (lift z)).2 l wn
+        = fin (modelTrans true false rp n nwn zb z dz dens rest l wn) := by
+  intro l hl wn hwn
+  rw [(src_path_integral_old (α := XR) n nwn total ht (fin rp) (fin rs) (lift zb) (lift z) (lift dz) (lift dens)
+    (rest.map liftC) planetPaths).1 l hl wn hwn]
+  exact modelTrans_fin false rp n nwn zb z dz dens rest l wn
+
+/-- … and with the new path method, under the hypothesis of `src_path_integral_new` -/
+theorem src_clear_run_new (rp rs : ℝ) (n nwn total : Nat) (ht : 0 < total) (zb z dz dens : Nat → ℝ)
+    (rest : List (Contrib ℝ)) (planetPaths : (Nat → XR) → (Nat → Nat → XR) → (Nat → Nat → XR) → List (Nat → XR))
+    (hnew : ∀ l < n, ∀ k < n - l,
+      (planetPaths (lift zb)
+          (rows (fun l => (Geometry.parallelVector (fin rp) (lift z l + lift dz l / 2) (Geometry.arrMax n (lift zb))).1))
+          (rows (fun l => (Geometry.parallelVector (fin rp) (lift z l + lift dz l / 2) (Geometry.arrMax n (lift zb))).2))).getD
+            l (fun _ => 0) k
+        = chordNew (fin rp) (lift zb) (lift z) (lift dz) l k) :
+    ∀ l < n, ∀ wn < nwn,
+      (Gen.SrcC19.path_integral (α := XR) nwn (rest.map liftC) (dispatch nwn total n) (lift dz) (lift dens) n true
+        planetPaths (fin rp) (fin rs) (lift zb) (lift z)).2 l wn
+        = fin (modelTrans true true rp n nwn zb z dz dens rest l wn) := by
+  intro l hl wn hwn
+  rw [(src_path_integral_new (α := XR) n nwn total ht (fin rp) (fin rs) (lift zb) (lift z) (lift dz) (lift dens)
+    (rest.map liftC) planetPaths hnew).1 l hl wn hwn]
+  exact modelTrans_fin true rp n nwn zb z dz dens rest l wn
 
 end Taurex.C19Src
